@@ -10,7 +10,7 @@ mkdir -p "$D/repo"
 cp -r /repo/src /repo/tests /repo/pyproject.toml "$D/repo/" 2>/dev/null
 ( cd "$D/repo" && patch -p1 -s < "$PATCH" ) || { echo "PATCH FAILED"; exit 3; }
 if [ "${TESTS:-0}" = 1 ]; then
-  ( cd "$D/repo" && PYTHONPATH="$D/repo/src" /venv/bin/python -m pytest -q -x -p no:cacheprovider tests 2>&1 | tail -2 )
+  ( cd "$D/repo" && PYTHONPATH="$D/repo/src" timeout 180 /venv/bin/python -m pytest -q -x -p no:cacheprovider tests 2>&1 | tail -2 )
 fi
 cd /verif
 VERIF_REPO="$D/repo" VERIF_EVIDENCE_DIR="$D/evidence" ./check "$ID" "$@" 2>&1 | grep -v "^  " | tail -4
